@@ -50,7 +50,7 @@ AREAS = {
     },
     'mrg': {
         'shrink_sep': ';', 'head_sep': ' | ',
-        'rule': 'families of 0-6 sources with 0-12 (thorough 0-40) messages each (a fifth of the sources empty), reception times all equal / '
+        'rule': 'families of 0-6 sources with 0-12 (thorough 0-40) messages each (a fifth of the sources empty; in one of forty families a run of 20 000-50 000 empty sources), reception times all equal / '
                 'non-decreasing with ties / increasing / unordered, start index 0-1999, through SortingMultiReaderIterator::new, '
                 'SequentialMultiIterator::new and both new_or_single_it variants; non-trivial = tagged (ties, empty source, unordered source, single, multi)',
     },
@@ -58,7 +58,7 @@ AREAS = {
         'shrink_sep': ';', 'head_sep': None,
         'rule': '1-4 (thorough 1-6) abstract filters (kind, enabled, negated, ECU/APID/CTID as literal / regex / flag omitted (auto-detection) / over-long / '
                 'non-compiling, type value via verb_mstp_mtin or mstp, level bounds, payload literal or regex with/without ignore-case, lifecycle list) rendered to '
-                'JSON, (when expressible) to a dlt-viewer DLF file and to an entry of a dlt-convert APID/CTID list (alone and behind the other expressible entries), loaded by the real constructors, serialised and re-loaded; 1-8 (thorough 1-16) messages over a small id '
+                'JSON, (when expressible) to a dlt-viewer DLF file - in one line and formatted with one element per line - and to an entry of a dlt-convert APID/CTID list (alone and behind the other expressible entries), loaded by the real constructors, serialised and re-loaded; 1-8 (thorough 1-16) messages over a small id '
                 'universe (short and full ids), with/without extended header, all 256 type bytes, lifecycles 0-3, payload texts differing in case (text as '
                 'computed by Rust); regex verdicts observed with the same crates on exactly the pattern/haystack pairs of the case',
     },
@@ -86,8 +86,8 @@ AREAS = {
         'shrink_sep': ' ;; ', 'head_sep': ' | ', 'needs_bin': True,
         'rule': 'a DLT file of 0-25 (thorough 0-60) verbose messages over 1-2 ECUs / 3 APIDs / 2 CTIDs / 6 payload texts with equal or increasing times, '
                 'and a command history of 2-11 (thorough 2-16) commands sent over a websocket to `adlt remote` (binary built from the working tree): '
-                'open (also with sort, also of a missing file, also twice), close, pause/resume, stream / query with 0-2 positive/negative filters and windows '
-                '(empty, beyond the end), stop, stream_change_window, stream_search (all start positions, page sizes 0-4), stream_binary_search by index and by time, '
+                'open (also with sort - also over equal calculated times -, of a missing file, twice, with Export / Muniic plugin configurations holding extreme values or unreadable files), close, pause/resume, stream / query with 0-2 positive/negative filters and windows '
+                '(empty, beyond the end), stop, stream_change_window, stream_search (all start positions, page sizes 0-4 and 2^32-1 / 2^40 / 2^53), stream_binary_search by index and by time (also far beyond every message), '
                 'each also with ids never announced / already stopped / of finished queries, without id, with a malformed or missing body, unknown commands, '
                 'fs requests (12 kinds: not JSON, not an object, missing fields, unknown cmd, stat / readDirectory of a directory, a file, a missing path, a corrupt and a real archive) '
                 'and plugin_cmd requests; one session in six uses the collect modes one_pass_streams / none / an invalid value with one-pass streams and resume (only reply presence and liveness compared); '
@@ -123,8 +123,8 @@ AREAS = {
     },
     'zip': {
         'shrink_sep': None,
-        'rule': 'extract_archives on generated zip archives of 0-5 (thorough 0-8) members: plain, nested, upper-case, hidden, with spaces / brackets / '
-                'non-ASCII, empty, and hostile names (../x, /etc/hostname, dir/../../out, .., x/../../y, drive and backslash forms), directory members, '
+        'rule': 'extract_archives on generated zip archives of 0-5 (thorough 0-8) members of 0-9000 bytes (sizes that put the archive across the 2/4/8 KiB marks), a fifth of the multi-entry archives stored in 1-3 volumes and named absolutely / with ./ / by the bare file name: plain, nested, upper-case, hidden, with spaces / brackets / '
+                'non-ASCII, empty, and hostile names (../x, /etc/hostname, dir/../../out, .., x/../../y, drive and backslash forms), names that stay inside but do not denote a file (dir/sub/.., b/.), other spellings of listed names (./a.dlt, dir/../a.dlt), directory members, '
                 'the single-entry `data` case; patterns: none, **/*, *.dlt, **/*.dlt, dir/*, literal names, [ab]*, ../*, ?, an invalid one, in the '
                 '`archive/pattern` and `archive!/pattern` forms; a file exists next to the temporary directory (<tmp>/../evil.dlt). Observed: the reported '
                 'paths (canonicalised, relative to the temporary directory), every file found inside it (path, length, content hash) and the number of files '
@@ -248,7 +248,7 @@ PROPS = {
     'C14': {
         'id': 'C14', 'area': 'cvt',
         'theorems': ['Props.C14_input_numbered', 'Props.C14_select', 'Props.C14_select_sorted', 'Props.C14_each_once',
-                     'Props.C14_files_of_a_group_order_free_partial', 'Props.C14_streams_order_free_partial'],
+                     'Props.C14_file_order', 'Props.C14_files_of_a_group_order_free', 'Props.C14_streams_order_free'],
         'n_quick': 400, 'n_thorough': 12000, 'env': {'VERIF_JOBS': '16'},
     },
     'C05': {
